@@ -77,14 +77,20 @@ def fields(n):
     return out
 
 
-def check_linear(a, rname, mspec, bc, res=None):
+def check_linear(a, rname, mspec, bc, res=None, src=False):
     mesh = space.mesh_spec(mspec)
     n = mesh.ncell
     if bc == "per":
         bcs = ("per", "per")
     else:
         bcs = (("dirichlet", [0.0]), ("dirichlet", [0.0]))      # homogeneous: dQ/dt = A Q stays linear (the statement is about linear problems)
-    model, disc = space.build_1d(("convection", a), None, rname, mesh, bcs[0], bcs[1])
+    if src:
+        # a position-dependent linear damping attached to the linear model (model.source): dQ/dt = (A_conv - diag k(x)) Q is still a linear problem
+        model = space.convection.model(a)
+        model.source = [lambda x, q: -(0.6 + 0.5 * np.cos(2.1 * np.asarray(x))) * q[0]]
+        disc = space.modeldisc.fvm(model, mesh, space.recon(rname), bcL=space.bc_dict(bcs[0]), bcR=space.bc_dict(bcs[1]))
+    else:
+        model, disc = space.build_1d(("convection", a), None, rname, mesh, bcs[0], bcs[1])
     A, r0 = op_matrix(disc, model, mesh)
     out = []
     dxmin = float(np.min(mesh.vol()))
@@ -484,6 +490,11 @@ def shard_linear(arg):
             res.nontrivial += 1
             for s, w in check_linear(a, rname, mspec, bc, res):
                 res.violation(s, w, {"kind": "lin", "a": a, "recon": rname, "mesh": mspec, "bc": bc})
+    for mspec in (("uni", 4, 1.0, -4.0), ("uni", 3, 3.0, 0.0), ("w", (2.0, 0.5, 1.0))):
+        for bc in ("per", "dirichlet"):
+            res.nontrivial += 1
+            for s, w in check_linear(a, rname, mspec, bc, res, src=True):
+                res.violation(s.replace("C06/linear/", "C06/linear/with-linear-source/"), w, {"kind": "lin", "a": a, "recon": rname, "mesh": mspec, "bc": bc, "src": True})
     for n in (4, 6, 8):
         for s, w in check_fourier(a, rname, n, res):
             res.violation(s, w, {"kind": "fourier", "a": a, "recon": rname, "n": n})
@@ -551,8 +562,9 @@ def _tup(x):
 def replay(case):
     k = case["kind"]
     if k == "lin":
-        v = check_linear(case["a"], case["recon"], _tup(case["mesh"]), case["bc"])
-        return [(s_.replace("C06/linear/", "C06/linear/larger-system/") if case.get("larger") else s_, w) for s_, w in v]
+        v = check_linear(case["a"], case["recon"], _tup(case["mesh"]), case["bc"], None, bool(case.get("src")))
+        tag = "C06/linear/larger-system/" if case.get("larger") else "C06/linear/with-linear-source/" if case.get("src") else "C06/linear/"
+        return [(s_.replace("C06/linear/", tag), w) for s_, w in v]
     if k == "fourier":
         return check_fourier(case["a"], case["recon"], case["n"])
     if k == "order":
